@@ -190,7 +190,7 @@ func (h *Harness) CopySources(from, sub string) error {
 // tag; returns the binary path and the compiler output.
 func (h *Harness) Build(pkg, outName string, race bool) (string, string, error) {
 	out := filepath.Join(h.Dir, outName)
-	args := []string{"build", "-tags", "verif", "-o", out}
+	args := []string{"build", "-tags", Tags(), "-o", out}
 	if race {
 		args = append(args, "-race")
 	}
@@ -204,7 +204,7 @@ func (h *Harness) Build(pkg, outName string, race bool) (string, string, error) 
 
 // Vet runs go vet on a package of the harness module.
 func (h *Harness) Vet(pkg string) (string, error) {
-	cmd := exec.Command("go", "vet", "-tags", "verif", pkg)
+	cmd := exec.Command("go", "vet", "-tags", Tags(), pkg)
 	cmd.Dir = h.Dir
 	cmd.Env = goEnv()
 	b, err := cmd.CombinedOutput()
@@ -225,4 +225,14 @@ func ExecHarness(bin string, args ...string) int {
 		return 2
 	}
 	return 0
+}
+
+// Tags returns the build tags for harnesses: "verif", plus the tags of
+// optional hooks the tree under test provides (older trees lack them).
+func Tags() string {
+	t := "verif"
+	if b, err := os.ReadFile(filepath.Join(ev.RepoDir(), "lib", "go", "verif_on.go")); err == nil && strings.Contains(string(b), "func VerifLockRegistry") {
+		t += " veriflock"
+	}
+	return t
 }
